@@ -36,6 +36,11 @@ type apLog struct {
 	failAt int
 	cur    string // input being executed: its index, or "c" during the final cancellation
 	fired  string
+	// stall: the failing write does not fail at once — it hangs (a slow output) until released; meanwhile the
+	// harness delivers a login, so that the failure is reported while Read's loop is busy outside its select
+	stall   bool
+	stalled chan struct{}
+	release chan struct{}
 }
 
 func (l *apLog) Encode(v any) error {
@@ -45,6 +50,15 @@ func (l *apLog) Encode(v any) error {
 	l.calls++
 	if k == l.failAt {
 		l.fired = l.cur
+		if l.stall {
+			l.mu.Unlock()
+			close(l.stalled)
+			select {
+			case <-l.release:
+			case <-time.After(5 * time.Second):
+			}
+			l.mu.Lock()
+		}
 		return errInjected
 	}
 	e, ok := v.(*auditevent.AuditEvent)
@@ -160,11 +174,28 @@ func apErrKind(err error, texts map[int]string) string {
 	return errKind(err) + "@-"
 }
 
-func runAuditProc(failAt int, ops []string, after int) string {
+func runAuditProc(failAt int, ops []string, after int, stall bool) string {
 	auditd.SetLogger(zap.NewNop().Sugar())
-	log := &apLog{failAt: failAt, fired: "-"}
+	log := &apLog{failAt: failAt, fired: "-", stall: stall, stalled: make(chan struct{}), release: make(chan struct{})}
 	audits := make(chan string)
 	logins := make(chan common.RemoteUserLogin)
+	if stall {
+		go func() {
+			select {
+			case <-log.stalled:
+			case <-time.After(120 * time.Second):
+				return
+			}
+			// the write is hanging inside the correlator (tracker mutex held): a login arrives on the other
+			// stream, Read's loop takes it and waits for the tracker
+			select {
+			case logins <- mkLogin(999983, "bystander", true, time.Unix(1, 0), "n"):
+			case <-time.After(300 * time.Millisecond):
+			}
+			time.Sleep(30 * time.Millisecond)
+			close(log.release)
+		}()
+	}
 	ap := auditd.Auditd{Audits: audits, Logins: logins, EventW: auditevent.NewAuditEventWriter(log), Health: health.NewHealth()}
 	if after > 0 {
 		// events stamped before this instant are ignored (Auditd.After)
@@ -303,12 +334,16 @@ func init() {
 					}
 				}()
 				after := 0
+				stall := false
 				for _, x := range f[3:] {
 					if strings.HasPrefix(x, "after=") {
 						after, _ = strconv.Atoi(x[6:])
 					}
+					if x == "stall=1" {
+						stall = true
+					}
 				}
-				fmt.Fprintf(out, "%s %s\n", f[0], runAuditProc(failAt, strings.Split(f[2], ";"), after))
+				fmt.Fprintf(out, "%s %s\n", f[0], runAuditProc(failAt, strings.Split(f[2], ";"), after, stall))
 			}()
 			out.Flush()
 		}
